@@ -460,6 +460,9 @@ func genHistory(r *lib.Rng, protocol int) []op {
 	}
 	for len(ops) < n {
 		x := r.Intn(100)
+		if len(ops) == 0 && r.Chance(3, 4) {
+			x = r.Pick(0, 0, 70) // most histories start by putting somebody on the list
+		}
 		switch {
 		case x < 22:
 			o := op{Kind: "add"}
